@@ -70,8 +70,8 @@ impl OperationControl for GreedyFixed {
     }
 
     fn matches_iter<'a>(
-        &self,
-        matcher: &'a ReMatcher,
+        &'a self,
+        matcher: &'a ReMatcher<'a>,
         position: usize,
     ) -> Box<dyn Iterator<Item = usize> + 'a> {
         #[cfg(regexml_verif)]
@@ -104,11 +104,23 @@ impl OperationControl for GreedyFixed {
         if matches < self.min {
             return Box::new(std::iter::empty());
         }
-        Box::new(IntStepIterator::new(
+        let steps = IntStepIterator::new(
             p,
             -(self.len as i64),
             position.saturating_add(self.len.saturating_mul(self.min)),
-        ))
+        );
+        if self.contains_capturing_expressions() {
+            Box::new(GreedyFixedIterator {
+                matcher,
+                operation: self.operation.as_ref(),
+                steps,
+                position,
+                top: p,
+                len: self.len,
+            })
+        } else {
+            Box::new(steps)
+        }
     }
 
     fn children(&self) -> Vec<Operation> {
@@ -131,6 +143,34 @@ impl RepeatOperation for GreedyFixed {
 
     fn greedy(&self) -> bool {
         true
+    }
+}
+
+// Yields the end positions for fewer and fewer repetitions. When repetitions
+// are given back, the groups captured inside the repeated term still hold
+// what the abandoned repetitions captured; matching the repetition that is
+// now the last one again brings them back to the state of that repetition.
+struct GreedyFixedIterator<'a> {
+    matcher: &'a ReMatcher<'a>,
+    operation: &'a Operation,
+    steps: IntStepIterator,
+    position: usize,
+    top: usize,
+    len: usize,
+}
+
+impl Iterator for GreedyFixedIterator<'_> {
+    type Item = usize;
+
+    fn next(&mut self) -> Option<Self::Item> {
+        let n = self.steps.next()?;
+        if n < self.top && n > self.position {
+            let _ = self
+                .operation
+                .matches_iter(self.matcher, n - self.len)
+                .next();
+        }
+        Some(n)
     }
 }
 
